@@ -299,6 +299,9 @@ impl Check for SmartAccount {
     fn components(&self) -> serde_json::Value {
         serde_json::json!({"real": ["examples/multisig-smart-account/account (from source)", "smart_account::{do_check_auth, authenticate, get_valid_context_rules, get_validated_context, rule management}", "PolicyClient / VerifierClient call paths"], "stub": ["StubPolicy (scripted can_enforce / enforce trap, call log)", "StubVerifier (sig == key‖payload)", "Wallet for delegated signers"]})
     }
+    fn probes(&self, _prop: &str) -> std::vec::Vec<&'static str> {
+        vec!["probe.accepted", "probe.rejected"]
+    }
     fn property_of(&self, check: &str) -> std::vec::Vec<&'static str> {
         if check.starts_with("rules.") {
             vec!["C20"]
